@@ -27,6 +27,7 @@ type SpecEnv struct {
 	pos    token.Pos
 	errs   *[]string
 	noQuant bool
+	outerVars *[]*Term // non-nil inside the body of an assumed universal quantifier: inner universals are prenexed
 	localFirst bool            // identifiers resolve to current local variables before parameters
 	shadow     map[string]bool // names bound by quantifiers (take precedence over locals)
 	fn     *ssa.Function
@@ -409,9 +410,11 @@ func (x *Exec) quietTypeInv(v Value, st *State) {
 }
 
 func (x *Exec) loadElemQuiet(st *State, elem types.Type, arr, idx *Term) Value {
-	return fromComps(elem, func(suffix string, s *Sort) *Term {
+	v := fromComps(elem, func(suffix string, s *Sort) *Term {
 		return Select(x.objGet(st, elemKey(elem)+suffix, Arr(bv64, s), arr), idx)
 	})
+	x.quietTypeInv(v, st)
+	return v
 }
 
 func (e *SpecEnv) evalLoc(ex ast.Expr) Value {
@@ -811,6 +814,8 @@ func (e *SpecEnv) evalCall(n *ast.CallExpr) Value {
 		return x.mergeValuesPure(c, a, b)
 	case "forall", "exists":
 		return e.quant(n, fname == "forall")
+	case "forallkey", "forallint":
+		return e.quantKey(n, fname == "forallkey")
 	case "sub":
 		// sub(s, t): s lies inside t[0:len(t)) (same array) or s is empty/nil
 		s, ok1 := argv(0).(SliceV)
@@ -876,14 +881,6 @@ func (e *SpecEnv) evalCall(n *ast.CallExpr) Value {
 		}
 		e.errorf("has: map expected")
 		return UnknownV{}
-	case "holds":
-		// holds(lockname)
-		if id, ok := n.Args[0].(*ast.Ident); ok {
-			if e.st.Locks[id.Name] {
-				return Scalar{T: True, Ty: tyBool}
-			}
-			return Scalar{T: False, Ty: tyBool}
-		}
 	case "sid":
 		if s, ok := argv(0).(SliceV); ok && s.Str {
 			return Scalar{T: x.sid(s), Ty: nil}
@@ -1047,6 +1044,17 @@ func (e *SpecEnv) quant(n *ast.CallExpr, universal bool) Value {
 	}
 	v := x.VC.Fresh(id.Name, ls.T.S)
 	sub := e.clone()
+	prenex := e.assume && !e.neg && universal && !e.noQuant
+	isOuter := false
+	if prenex {
+		if e.outerVars == nil {
+			l := []*Term{}
+			sub.outerVars = &l
+			isOuter = true
+		}
+	} else {
+		sub.outerVars = nil
+	}
 	sub.shadow = map[string]bool{id.Name: true}
 	for k := range e.shadow {
 		sub.shadow[k] = true
@@ -1064,10 +1072,88 @@ func (e *SpecEnv) quant(n *ast.CallExpr, universal bool) Value {
 	} else {
 		rng = And(IntCmp("<=", ls.T, v), IntCmp("<", v, hs.T))
 	}
+	if prenex && !isOuter {
+		// nested inside an assumed universal: hand the variable to the outermost quantifier
+		*e.outerVars = append(*e.outerVars, v)
+		return Scalar{T: Implies(rng, body), Ty: tyBool}
+	}
 	if universal {
-		return Scalar{T: e.quantTerm([]*Term{v}, Implies(rng, body), true), Ty: tyBool}
+		vars := []*Term{v}
+		if prenex && isOuter {
+			vars = append(vars, *sub.outerVars...)
+		}
+		return Scalar{T: e.quantTerm(vars, Implies(rng, body), true), Ty: tyBool}
 	}
 	return Scalar{T: e.quantTerm([]*Term{v}, And(rng, body), false), Ty: tyBool}
+}
+
+// quantKey handles forallkey(k, m, body): for every key present in map m; forallint(a, body): for every Int value.
+func (e *SpecEnv) quantKey(n *ast.CallExpr, overMap bool) Value {
+	x := e.x
+	want := 2
+	if overMap {
+		want = 3
+	}
+	if len(n.Args) != want {
+		e.errorf("forallkey(k, m, body) / forallint(a, body) expected")
+		return UnknownV{}
+	}
+	id, ok := n.Args[0].(*ast.Ident)
+	if !ok {
+		e.errorf("quantifier: first argument must be an identifier")
+		return UnknownV{}
+	}
+	ks := IntS
+	var rng *Term = True
+	var mt *types.Map
+	var mref *Term
+	if overMap {
+		mv, ok := e.eval(n.Args[1]).(Scalar)
+		if ok {
+			mt, _ = mv.Ty.Underlying().(*types.Map)
+			mref = mv.T
+		}
+		if mt == nil {
+			e.errorf("forallkey: map expected")
+			return UnknownV{}
+		}
+		ks = mapKeySort(mt.Key())
+	}
+	v := x.VC.Fresh(id.Name, ks)
+	sub := e.clone()
+	prenex := e.assume && !e.neg && !e.noQuant
+	isOuter := false
+	if prenex {
+		if e.outerVars == nil {
+			l := []*Term{}
+			sub.outerVars = &l
+			isOuter = true
+		}
+	} else {
+		sub.outerVars = nil
+	}
+	sub.shadow = map[string]bool{id.Name: true}
+	for k := range e.shadow {
+		sub.shadow[k] = true
+	}
+	var kty types.Type
+	if mt != nil && !isString(mt.Key()) {
+		kty = mt.Key()
+	}
+	sub.vars[id.Name] = Scalar{T: v, Ty: kty}
+	if overMap {
+		rng = x.mapHasQuiet(e.st, mt, mref, v)
+	}
+	body := sub.EvalBool(n.Args[want-1])
+	if prenex && !isOuter {
+		*e.outerVars = append(*e.outerVars, v)
+		return Scalar{T: Implies(rng, body), Ty: tyBool}
+	}
+	vars := []*Term{v}
+	if prenex && isOuter {
+		vars = append(vars, *sub.outerVars...)
+	}
+	return Scalar{T: e.quantTerm(vars, Implies(rng, body), true), Ty: tyBool}
 }
 
 // quantTerm turns a quantified formula into a ground term appropriate for the mode:
